@@ -337,6 +337,35 @@ func specialFamily() []*pg.Program {
 	return out, err
 }
 `)
+	rawNoTag := func(fam, body string) {
+		ps = append(ps, &pg.Program{Fam: "S:" + fam, Expect: "reject", Raw: "package PKG\n\nimport (\n\t\"context\"\n\n\t\"go.uber.org/cff\"\n)\n\n" + body})
+	}
+	// files without the cff constraint: must be rejected with diagnostics, whatever else is wrong with them
+	rawNoTag("untagged-valid-flow", `func run_ID(ctx context.Context) (int, error) {
+	var x int
+	err := cff.Flow(ctx, cff.Results(&x), cff.Task(func() int { return 1 }))
+	return x, err
+}
+`)
+	rawNoTag("untagged-empty-flow", `func run_ID(ctx context.Context) error {
+	return cff.Flow(ctx)
+}
+`)
+	rawNoTag("untagged-empty-parallel", `func run_ID(ctx context.Context) error {
+	return cff.Parallel(ctx)
+}
+`)
+	rawNoTag("untagged-invalid-and-valid", `func run_ID(ctx context.Context) error {
+	if err := cff.Flow(ctx, cff.Concurrency(2)); err != nil {
+		return err
+	}
+	return cff.Parallel(ctx, cff.Task(func() {}))
+}
+`)
+	raw("empty-flow", "reject", `func run_ID(ctx context.Context) error {
+	return cff.Flow(ctx)
+}
+`)
 	raw("slice-noindex-sliceend", "accept", `func run_ID(ctx context.Context, s []int) error {
 	return cff.Parallel(ctx, cff.Slice(func(v int) {}, s, cff.SliceEnd(func() {})))
 }
@@ -562,7 +591,7 @@ func staticMain(prop, tier, build, overlay, repo, cffBin string) {
 				}
 			}
 			if prop == "C13" {
-				if !isAccepted && want == "accept" && named {
+				if !isAccepted && named {
 					// rejected with diagnostics: must be positioned and non-zero
 					if out.exit == 0 {
 						report("C13", "cff printed errors for the file but exited 0")
